@@ -5,9 +5,16 @@ import NB.Gen.AsmProg
 namespace NB.Gen
 open NB.Asm
 
-/-- how far the loop body advances register `r`: number of `inc r` instructions -/
+/-- by how much one instruction advances register `r`: `inc r`, `lea r, [r + imm]`, `add r, imm` -/
+def idxAdv (r : Nat) : Instr → Nat
+  | .inc r' => if r' = r then 1 else 0
+  | .lea d s imm => if d = r ∧ s = r then imm else 0
+  | .addi r' imm => if r' = r then imm else 0
+  | _ => 0
+
+/-- how far the loop body advances register `r` (syntactic; `NB.Asm.checkLoop` certifies it, see Props/C15) -/
 def idxStep (prog : List Instr) (r : Nat) : Nat :=
-  (prog.filter (fun i => i == Instr.inc r)).length
+  (prog.map (idxAdv r)).sum
 
 def P : NB.Params where
   addBlk := ⟨idxStep addProg addReg_idx, addDiv⟩
